@@ -43,3 +43,19 @@ def remove_iff_zero(eng, PROP, p, unconditional_remove=('CancelAsk',)):
                 eng.ob(f_, PROP, 'remove-iff-zero', '%s:%s:save' % (p.variant, ns),
                        '%s: the %s is kept on the book on a path that does not establish its new remainder %s is non-zero (an exhausted order would stay visible)' % (p.variant, ns, dom.show(rem)), where=w['site'], detail=p.describe(14))
     return n
+
+
+def persistence_identity(eng, PROP):
+    # persistence is the identity on records: every field of every persisted type is written by the derived Serialize impl under its own
+    # name and required by the derived Deserialize impl (no skip / rename / default that would make a stored order differ from the written one)
+    sd = eng.s.get('serde', {})
+    PERSISTED = ['ask_order::AskOrderV1', 'ask_order::AskOrderClass', 'ask_order::AskOrderStatus', 'bid_order::BidOrderV3', 'contract_info::ContractInfoV3',
+                 'version_info::VersionInfoV1', 'common::FeeInfo']
+    for ty in PERSISTED:
+        adt = next((a for a in eng.s['adts'] if a['def'] == ty), None)
+        eng.ob(adt is not None, PROP, 'anchor', ty, 'persisted type %s not found (fail closed)' % ty)
+        if adt is None: continue
+        fields = [f['name'] for v_ in adt['variants'] for f in v_['fields']]
+        ser = sd.get('struct_field_names', {}).get(ty, []); req = sd.get('required_fields', {}).get(ty, [])
+        eng.ob(sorted(ser) == sorted(fields), PROP, 'persistence-identity', ty + ':serialize', 'the Serialize impl of %s writes fields %s but the type has %s (a skipped or renamed field does not survive storage)' % (ty, ser, fields))
+        eng.ob(sorted(req) == sorted(fields), PROP, 'persistence-identity', ty + ':deserialize', 'the Deserialize impl of %s requires %s but the type has %s (a defaulted or renamed field is not read back as written)' % (ty, req, fields))
